@@ -258,13 +258,52 @@ def lean_run(src_text, timeout=1200):
     return rc, out
 
 
-def _run_lines_one(exe, lines, timeout, e):
+HANG_RC = 124
+
+
+def _run_once(exe, lines, timeout, e):
+    """returns (returncode or None on timeout, answer lines, stderr)"""
     data = ("\n".join(lines) + "\n").encode()
-    p = subprocess.run([exe], input=data, stdout=subprocess.PIPE, stderr=subprocess.PIPE, timeout=timeout, env=e)
-    out = p.stdout.decode("utf-8", "replace").split("\n")
+    p = subprocess.Popen([exe], stdin=subprocess.PIPE, stdout=subprocess.PIPE, stderr=subprocess.PIPE, env=e)
+    try:
+        so, se = p.communicate(data, timeout=timeout)
+        rc = p.returncode
+    except subprocess.TimeoutExpired:
+        p.kill()
+        so, se = p.communicate()
+        rc = None
+    out = so.decode("utf-8", "replace").split("\n")
     if out and out[-1] == "":
         out.pop()
-    return p.returncode, out, p.stderr.decode("utf-8", "replace")
+    return rc, out, se.decode("utf-8", "replace")
+
+
+def _run_lines_one(exe, lines, timeout, e):
+    """one process for a batch of lines.  A process that stops answering (an input on which the library never
+    returns) is killed after a time limit proportional to the batch; the hanging line is then located by bisection
+    and reported like a crash: the answers up to it are returned with a non-zero return code."""
+    size = sum(len(l) for l in lines)
+    limit = min(timeout, int(os.environ.get("VERIF_EXEC_TIMEOUT", "0")) or max(90, size // 20000))
+    rc, out, err = _run_once(exe, lines, limit, e)
+    if rc is not None:
+        return rc, out, err
+    # timed out: everything before `lo` is known to be answered; find the first line that never returns
+    lo, hi = min(len(out), len(lines) - 1), len(lines)
+    good = out[:lo]
+    while hi - lo > 1:
+        mid = (lo + hi) // 2
+        seg = lines[lo:mid]
+        r2, o2, _ = _run_once(exe, seg, max(10, sum(len(l) for l in seg) // 20000 * 3), e)
+        if r2 is None or len(o2) != len(seg):
+            if r2 is not None:
+                # died rather than hung inside this half: report as an ordinary abort at that line
+                return (r2 if r2 != 0 else 1), good + o2, "executor died while a hang was being located"
+            hi = mid
+        else:
+            good += o2
+            lo = mid
+    return HANG_RC, good, "TIMEOUT: the executor never answered line %d of its batch (no answer within %d s, located by bisection): %s" % (
+        lo, limit, lines[lo][:300])
 
 
 def run_lines(exe, lines, timeout=3600, env=None):
